@@ -863,6 +863,8 @@ def prop_C15(ctx):
         if r2 is None:
             continue
         it = r2[0]
+        if n1 == 'tuple_to_named_without_names' and (not it.members or it.members[0].attrs):
+            continue      # the second injection put an instruction on member 0: the first fault (member 0 without a name) is gone
         it.meta = dict(b.meta, fault=n1 + '+' + n2, faults=[(n1, c1, r1[1], pos1), (n2, c2, r2[1], getattr(it, 'pos', ''))])
         pairs.append(it)
     stats = collections.Counter()
